@@ -256,15 +256,12 @@ def conversion_harnesses(repo):
     for fn, desc, src, expect, props in conv_items(repo):
         if fn.startswith("nt_parse_"):
             L = int(fn[-1])
-            u16 = "_u14_" in fn
-            # quick: length <= 4; thorough: 6 for the u16-backed type, 5 for the u8-backed ones
-            if L == 3:
+            # every ASCII string of length 0..=6 (the longest in-range numerals have 5 digits, so
+            # this covers a sign and a leading zero on top of them); shorter bounds are not run
+            if L != 6:
                 continue
-            tier = "quick" if L == 4 else ("thorough" if (L == 6) == u16 else None)
-            if tier is None:
-                continue
-            hs.append(registry.H(fn, "generated::conv::" + fn, props, desc, unwind=9, tier=tier,
-                                 cost=10 if L == 4 else 200, timeout=3000))
+            hs.append(registry.H(fn, "generated::conv::" + fn, props, desc, unwind=9, tier="quick",
+                                 cost=30, timeout=3000))
             continue
         if fn.startswith("nt_display_"):
             hs.append(registry.H(fn, "generated::conv::" + fn, props, desc, unwind=9, cost=15))
